@@ -91,12 +91,17 @@ func (g *genState) stages(depth int, path []int, sub bool) [][]*GNode {
 					t.Calls = append(t.Calls, &GCall{UID: g.uid, Natives: r.Range(1, 3), Fails: r.Chance(1, 12),
 						DelayUs: r.Intn(300), Chunks: r.Range(1, 3)})
 				}
-				// a failing tool call may fail by panicking (not the first of several calls: the ToolsNode runs
-				// that one on its own goroutine and would itself panic while the other calls are still running)
-				for i, cl := range t.Calls {
-					if cl.Fails && (i > 0 || len(t.Calls) == 1) && r.Chance(1, 2) {
+				// a failing tool call may fail by panicking; the first of several calls too: the ToolsNode runs
+				// that one on its own goroutine, the panic passes through the node (which ends with an error)
+				// while the other calls are still running: they finish on their own, like the tasks an eager
+				// run leaves behind
+				for _, cl := range t.Calls {
+					if cl.Fails && r.Chance(1, 2) {
 						cl.Panics = true
 					}
+				}
+				if len(t.Calls) > 1 && r.Chance(1, 8) {
+					t.Calls[0].Fails, t.Calls[0].Panics = true, true
 				}
 				// a call of a tool the node does not have (answered by the UnknownToolsHandler); the tool
 				// list handed over at call time instead of at construction
@@ -126,7 +131,7 @@ func (g *genState) stages(depth int, path []int, sub bool) [][]*GNode {
 				n.Fails = r.Chance(1, 18)
 				// a third of the failing nodes fail by panicking (eino contains the panic: the node ends with an error)
 				n.Panics = n.Fails && r.Chance(1, 3)
-				n.SelfCB = n.Natives == 1 && r.Chance(1, 8)
+				n.SelfCB = r.Chance(1, 8)
 				if n.SelfCB {
 					n.Panics = false // a component that fires its callbacks itself answers for its own panics
 				}
@@ -376,7 +381,7 @@ func genGraph(r *lib.Rng, tier string) *Case {
 	// a fault at a particular point of the sequence: a third of the sequences have a resuming call
 	// that fails before anything is restored (the store fails; the graph has been rebuilt with other keys)
 	if c.Store && totalIntr(c) > 0 && r.Chance(1, 3) {
-		c.ResumeFault = []string{"stale", "stale", "stale", "store"}[r.Intn(4)]
+		c.ResumeFault = []string{"stale", "stale", "stale-sub", "stale-sub", "store"}[r.Intn(5)]
 		c.FaultAt = 1
 		if totalIntr(c) > 1 && r.Chance(1, 3) {
 			c.FaultAt = 2
@@ -385,34 +390,117 @@ func genGraph(r *lib.Rng, tier string) *Case {
 	return c
 }
 
+// leavesTasksBehind: a run of the case may return while some of its units are still executing: the eager
+// task collection of a Workflow (a failed task ends the run, the other tasks of the step finish on their
+// own), a ToolsNode whose first tool call panics (the panic passes through the node while the other calls
+// of the message are still running)
+func (c *Case) leavesTasksBehind() bool {
+	if c.Eager {
+		return true
+	}
+	found := false
+	allNodes(c.Stages, func(n *GNode, _ int) {
+		if n.Kind == "tools" && len(n.Calls) > 1 && n.Calls[0].Panics {
+			found = true
+		}
+	}, 0)
+	return found
+}
+
 // faultStrikes: the k-th call of the sequence fails in the prologue of the run
 func (c *Case) faultStrikes(k int) bool { return c.ResumeFault != "" && k > 0 && k == c.FaultAt }
 
+// faultPlan: what the fault of the k-th call amounts to, given where the sequence stands.
+//
+//	level 0: no fault in this call;
+//	level 1: the prologue of the TOP-level run fails (store out of order; a pending top-level node has
+//	         another key; or the call options do not fit the newer build any more);
+//	level 2: the prologue of the nested graph `sub` fails: the newer build renamed a pending node inside
+//	         a nested graph that the run before left interrupted, the top-level graph restores its tasks,
+//	         the nested graph - continued from its own checkpoint - cannot.
+type faultPlan struct {
+	level int
+	sub   *GNode // level 2: the nested graph (a node of c)
+	stale *Case  // the newer build of the graph, when the call is made by one
+}
+
+// faultPlanFor is a function of the case, of where the sequence stands (ps) and of the options of the call.
+func (c *Case) faultPlanFor(ps *planSt, k int, opts []GOpt) faultPlan {
+	if !c.faultStrikes(k) {
+		return faultPlan{}
+	}
+	switch c.ResumeFault {
+	case "store":
+		return faultPlan{level: 1}
+	case "stale-sub":
+		// the nested graphs (not the typed tools sub graphs) the run before left interrupted
+		var cands []*GNode
+		var paths [][]int
+		var walk func(stages [][]*GNode, path []int)
+		walk = func(stages [][]*GNode, path []int) {
+			for _, st := range stages {
+				for _, n := range st {
+					if n.Kind != "sub" {
+						continue
+					}
+					q := append(append([]int{}, path...), n.Key)
+					if ps.lastIntr[n.UID] && n.Typed == "" {
+						cands = append(cands, n)
+						paths = append(paths, q)
+					}
+					walk(n.Stages, q)
+				}
+			}
+		}
+		walk(c.Stages, nil)
+		if len(cands) > 0 {
+			i := int((c.Seed >> 24) % uint64(len(cands)))
+			nc := c.staleBuildAt(ps, opts, paths[i])
+			if !optsOKDeep(nc.Stages, opts) {
+				return faultPlan{level: 1, stale: nc} // the options of the call do not fit the newer build
+			}
+			return faultPlan{level: 2, sub: cands[i], stale: nc}
+		}
+	}
+	return faultPlan{level: 1, stale: c.staleBuildAt(ps, opts, nil)}
+}
+
 // expectRun: the units of the k-th run of the sequence and its outcome. A call that fails in its prologue
-// executes the graph unit alone: its start, then its error (the deferred bookkeeping of runner.run).
+// executes the graph unit alone: its start, then its error (the deferred bookkeeping of runner.run); a
+// nested graph whose prologue fails is executed that way, and its node has failed.
 func (c *Case) expectRun(x *expectation, k int, opts []GOpt) int {
-	if c.faultStrikes(k) {
+	fp := c.faultPlanFor(x.ps, k, opts)
+	switch fp.level {
+	case 1:
 		x.execs[0]++
 		x.failed[0], x.errKind[0], x.badOpts[0] = true, outFail, true
 		return outFail
+	case 2:
+		x.ps.faultNow, x.faultErr = fp.sub.UID, true
+		defer func() { x.ps.faultNow = 0 }()
 	}
 	return x.graph(0, c.Stages, opts, nil)
 }
 
 // runOutcome: the outcome of the k-th run of the sequence
 func (c *Case) runOutcome(ps *planSt, k int, opts []GOpt) int {
-	if c.faultStrikes(k) {
+	fp := c.faultPlanFor(ps, k, opts)
+	switch fp.level {
+	case 1:
 		return outFail
+	case 2:
+		ps.faultNow = fp.sub.UID
+		defer func() { ps.faultNow = 0 }()
 	}
 	return ps.graphOutcome(c.Stages, opts)
 }
 
-// staleBuild: the case as a newer build of the graph in which one node got another key: a node the
-// checkpoint holds a pending task for (ps: where the sequence stands; the nodes still to be executed of
-// the first top-level stage that has not completed), if possible one that no call option of the
-// resuming call designates (opts), so that the call gets as far as restoring the tasks; the interrupt
-// points follow the renaming
-func (c *Case) staleBuild(ps *planSt, opts []GOpt) *Case {
+// staleBuildAt: the case as a newer build of the graph in which one node of the graph level at key path
+// [at] (nil = the top level) got another key: a node the checkpoint of that level holds a pending task for
+// (ps: where the sequence stands; the nodes still to be executed of the first stage of that level that has
+// not completed), if possible one that no call option of the resuming call designates (opts), so that the
+// call gets as far as restoring the tasks; the interrupt points of that level follow the renaming
+func (c *Case) staleBuildAt(ps *planSt, opts []GOpt, at []int) *Case {
 	raw, err := json.Marshal(c)
 	if err != nil {
 		panic("harness: " + err.Error())
@@ -421,8 +509,20 @@ func (c *Case) staleBuild(ps *planSt, opts []GOpt) *Case {
 	if err := json.Unmarshal(raw, n); err != nil {
 		panic("harness: " + err.Error())
 	}
+	level := n.Stages
+	for _, k := range at {
+		var next [][]*GNode
+		for _, st := range level {
+			for _, m := range st {
+				if m.Kind == "sub" && m.Key == k {
+					next = m.Stages
+				}
+			}
+		}
+		level = next
+	}
 	var pending, free []*GNode
-	for _, st := range n.Stages {
+	for _, st := range level {
 		for _, m := range st {
 			if m.Kind != "stop" && !ps.done[m.UID] {
 				pending = append(pending, m)
@@ -436,7 +536,7 @@ func (c *Case) staleBuild(ps *planSt, opts []GOpt) *Case {
 		named := false
 		for _, o := range opts {
 			for _, p := range o.Paths {
-				if len(p) > 0 && p[0] == m.Key {
+				if len(p) > len(at) && isPrefix(at, p) && p[len(at)] == m.Key {
 					named = true
 				}
 			}
@@ -454,7 +554,7 @@ func (c *Case) staleBuild(ps *planSt, opts []GOpt) *Case {
 		ren[m.Key] = m.Key + 1000
 		m.Key += 1000
 	}
-	for _, st := range n.Stages {
+	for _, st := range level {
 		for _, m := range st {
 			if m.Kind == "stop" {
 				for i, k := range m.Before {
@@ -713,35 +813,69 @@ func (rr *runRec) lambda(n *GNode) *compose.Lambda {
 			return rr.body(n, in)
 		}
 	}
+	// a lambda that fires its callbacks itself (WithLambdaCallbackEnable) does so in every paradigm it
+	// implements, with the timings of that paradigm; the graph must inject nothing around it
 	if n.Natives&2 != 0 {
 		s = func(ctx context.Context, in vmap, _ ...lopt) (*schema.StreamReader[vmap], error) {
+			if n.SelfCB {
+				ctx = callbacks.OnStart(ctx, in)
+			}
 			out, err := rr.body(n, in)
 			if err != nil {
+				if n.SelfCB {
+					callbacks.OnError(ctx, err)
+				}
 				return nil, err
 			}
-			return chunked(out, n.Chunks), nil
+			sr := chunked(out, n.Chunks)
+			if n.SelfCB {
+				_, sr = callbacks.OnEndWithStreamOutput(ctx, sr)
+			}
+			return sr, nil
 		}
 	}
 	if n.Natives&4 != 0 {
 		c = func(ctx context.Context, in *schema.StreamReader[vmap], _ ...lopt) (vmap, error) {
+			if n.SelfCB {
+				ctx, in = callbacks.OnStartWithStreamInput(ctx, in)
+			}
 			m, err := drain(in)
+			if err == nil {
+				m, err = rr.body(n, m)
+			}
 			if err != nil {
+				if n.SelfCB {
+					callbacks.OnError(ctx, err)
+				}
 				return nil, err
 			}
-			return rr.body(n, m)
+			if n.SelfCB {
+				callbacks.OnEnd(ctx, m)
+			}
+			return m, nil
 		}
 	}
 	if n.Natives&8 != 0 {
 		t = func(ctx context.Context, in *schema.StreamReader[vmap], _ ...lopt) (*schema.StreamReader[vmap], error) {
+			if n.SelfCB {
+				ctx, in = callbacks.OnStartWithStreamInput(ctx, in)
+			}
 			m, err := drain(in)
+			var out vmap
+			if err == nil {
+				out, err = rr.body(n, m)
+			}
 			if err != nil {
+				if n.SelfCB {
+					callbacks.OnError(ctx, err)
+				}
 				return nil, err
 			}
-			out, err := rr.body(n, m)
-			if err != nil {
-				return nil, err
+			sr := chunked(out, n.Chunks)
+			if n.SelfCB {
+				_, sr = callbacks.OnEndWithStreamOutput(ctx, sr)
 			}
-			return chunked(out, n.Chunks), nil
+			return sr, nil
 		}
 	}
 	// every lambda has an implementation type of its own: RunInfo.Type is part of the unit's run info
@@ -1043,16 +1177,17 @@ func call(r compose.Runnable[vmap, vmap], paradigm string, inChunks int, opts ..
 // ---------------------------------------------------------------- what the property expects (static)
 
 type expectation struct {
-	execs   map[int]int   // uid -> number of executions of the unit
-	failed  map[int]bool  // uid -> the unit ends with an error (a failure or an interrupt)
-	paths   map[int][]int // uid -> key path from the top graph ([] for the graph itself)
-	kind    map[int]string
-	node    map[int]*GNode
-	calls   map[int]*GCall
-	errKind map[int]int  // uid -> outFail / outIntr for a unit that ends with an error
-	badOpts map[int]bool // uid -> the graph rejected its call options
-	opts    []GOpt       // the call options of the run
-	ps      *planSt
+	execs    map[int]int   // uid -> number of executions of the unit
+	failed   map[int]bool  // uid -> the unit ends with an error (a failure or an interrupt)
+	paths    map[int][]int // uid -> key path from the top graph ([] for the graph itself)
+	kind     map[int]string
+	node     map[int]*GNode
+	calls    map[int]*GCall
+	errKind  map[int]int  // uid -> outFail / outIntr for a unit that ends with an error
+	badOpts  map[int]bool // uid -> the graph rejected its call options
+	opts     []GOpt       // the call options of the run
+	ps       *planSt
+	faultErr bool // the prologue of a nested graph fails in this run: the enclosing units end with that error
 }
 
 func newExpectation(ps *planSt) *expectation {
@@ -1064,8 +1199,11 @@ func newExpectation(ps *planSt) *expectation {
 // how many more executions of a unit will ask for an interrupt, which nodes completed in an
 // earlier run of the sequence (they are not executed again).
 type planSt struct {
-	left map[int]int
-	done map[int]bool
+	left     map[int]int
+	done     map[int]bool
+	lastIntr map[int]bool // the nested graphs the last interrupted run of the sequence left interrupted
+	nIntr    map[int]int  // nested graph -> number of runs that left it interrupted
+	faultNow int          // uid of the nested graph whose prologue fails in the run being looked at (0: none)
 }
 
 const (
@@ -1075,7 +1213,7 @@ const (
 )
 
 func newPlan(c *Case) *planSt {
-	ps := &planSt{left: map[int]int{}, done: map[int]bool{}}
+	ps := &planSt{left: map[int]int{}, done: map[int]bool{}, lastIntr: map[int]bool{}, nIntr: map[int]int{}}
 	allNodes(c.Stages, func(n *GNode, _ int) {
 		if n.Intr > 0 {
 			ps.left[n.UID] = n.Intr
@@ -1116,6 +1254,9 @@ func (ps *planSt) outcome(n *GNode, opts []GOpt) int {
 			return outIntr
 		}
 	case "sub":
+		if n.UID == ps.faultNow {
+			return outFail // the prologue of the nested run fails
+		}
 		return ps.graphOutcome(n.Stages, subOpts(n.Key, opts))
 	case "tools":
 		// ToolsNode reports the error of the first call (in the order of the message) that has one
@@ -1157,7 +1298,12 @@ func (ps *planSt) graphOutcome(stages [][]*GNode, opts []GOpt) int {
 	return outOK
 }
 
-// advance: the run (whose outcome is outIntr) has been interrupted; what the resumed run starts from
+// advanceRun: the run (whose outcome is outIntr) has been interrupted; what the resumed run starts from
+func (ps *planSt) advanceRun(stages [][]*GNode, opts []GOpt) {
+	ps.lastIntr = map[int]bool{}
+	ps.advance(stages, opts)
+}
+
 func (ps *planSt) advance(stages [][]*GNode, opts []GOpt) {
 	for _, st := range stages {
 		intr := false
@@ -1181,6 +1327,8 @@ func (ps *planSt) advance(stages [][]*GNode, opts []GOpt) {
 			case "lambda", "stop":
 				ps.left[n.UID]--
 			case "sub":
+				ps.lastIntr[n.UID] = true
+				ps.nIntr[n.UID]++
 				ps.advance(n.Stages, subOpts(n.Key, opts))
 			case "tools": // the whole node is executed again: every call once more
 				for _, cl := range n.Calls {
@@ -1281,6 +1429,13 @@ func (x *expectation) graph(uid int, stages [][]*GNode, opts []GOpt, path []int)
 				}
 				note(o)
 			case "sub":
+				if n.UID == x.ps.faultNow {
+					// the nested run fails in its prologue: the nested graph unit alone, start and error
+					x.execs[n.UID]++
+					x.failed[n.UID], x.errKind[n.UID], x.badOpts[n.UID] = true, outFail, true
+					note(outFail)
+					break
+				}
 				note(x.graph(n.UID, n.Stages, subOpts(n.Key, opts), p))
 			case "tools":
 				// the ToolsNode and every tool call of the message execute once; the calls are
@@ -1543,13 +1698,12 @@ func runGraph(c *Case) lib.Result {
 		// store out of order resp. on a newer build of the graph (same store) whose pending nodes have other keys
 		callRun := func(rec *runRec, run compose.Runnable[vmap, vmap], store *memStore, ps *planSt, k int, gopts []GOpt, opts []compose.Option) string {
 			stages := c.Stages
-			if c.faultStrikes(k) {
-				switch c.ResumeFault {
-				case "store":
+			if fp := c.faultPlanFor(ps, k, gopts); fp.level > 0 {
+				if fp.stale == nil {
 					store.setFail(true)
 					defer store.setFail(false)
-				case "stale":
-					nc := c.staleBuild(ps, gopts)
+				} else {
+					nc := fp.stale
 					g, err := rec.buildTop(nc)
 					if err != nil {
 						panic("harness: newer build of the graph does not build: " + err.Error())
@@ -1584,7 +1738,7 @@ func runGraph(c *Case) lib.Result {
 			r0.nextRun()
 			r := callRun(r0, run0, store0, ps0, k, nil, append([]compose.Option{}, cpOpt...))
 			baseline = append(baseline, r)
-			if c.Eager {
+			if c.leavesTasksBehind() {
 				// the tasks an eager run left behind must not meet the handlers of the next run
 				x0 := newExpectation(ps0)
 				c.expectRun(x0, k, nil)
@@ -1597,7 +1751,7 @@ func runGraph(c *Case) lib.Result {
 				break
 			}
 			if c.runOutcome(ps0, k, nil) == outIntr {
-				ps0.advance(c.Stages, nil)
+				ps0.advanceRun(c.Stages, nil)
 			}
 		}
 
@@ -1670,7 +1824,7 @@ func runGraph(c *Case) lib.Result {
 			if !waitPending(s, 10*time.Second) {
 				fail("graph-stream", "run %d: a handler's copy of a stream payload never ended", k)
 			}
-			if c.Eager {
+			if c.leavesTasksBehind() {
 				// eager task collection returns as soon as one task has failed: the other tasks of
 				// that step are still running; give them time to finish
 				x := newExpectation(ps)
@@ -1724,7 +1878,7 @@ func runGraph(c *Case) lib.Result {
 				break
 			}
 			if c.runOutcome(ps, k, c.optsFor(k)) == outIntr {
-				ps.advance(c.Stages, c.optsFor(k))
+				ps.advanceRun(c.Stages, c.optsFor(k))
 			}
 		}
 	})
@@ -1744,11 +1898,18 @@ func runGraph(c *Case) lib.Result {
 	}
 	ps := newPlan(c)
 	var runTerms []string
+	faultLevel, faultSub, faultDelay := 0, 0, 0 // what the fault of the sequence amounted to (0: it did not strike)
 	nLabels := map[int]int{}
 	nIntrRuns := 0
 	for k := 0; ; k++ {
 		x := newExpectation(ps)
 		x.opts = c.optsFor(k)
+		if fp := c.faultPlanFor(ps, k, c.optsFor(k)); fp.level > 0 {
+			faultLevel = fp.level
+			if fp.level == 2 {
+				faultSub, faultDelay = fp.sub.UID, ps.nIntr[fp.sub.UID]
+			}
+		}
 		out := c.expectRun(x, k, c.optsFor(k))
 		x0 := newExpectation(ps)
 		out0 := c.expectRun(x0, k, nil)
@@ -1813,7 +1974,7 @@ func runGraph(c *Case) lib.Result {
 			break
 		}
 		nIntrRuns++
-		ps.advance(c.Stages, c.optsFor(k))
+		ps.advanceRun(c.Stages, c.optsFor(k))
 	}
 	// the caller's own handler slices (the arguments of WithCallbacks) after all runs
 	for _, cs := range callerSlices {
@@ -1840,12 +2001,14 @@ func runGraph(c *Case) lib.Result {
 	if c.Store && !modelHasRuns {
 		res.CoqTerm = "" // stopgap while Corr/C10.v has no CaseRuns
 	} else if c.Store {
+		// the call that fails in the prologue of the top-level run (with_fault); a nested graph whose
+		// prologue fails is part of the plan ([RFault] as the first stage of that graph)
 		fault := 0
-		if c.ResumeFault != "" && c.FaultAt > 0 {
+		if c.ResumeFault != "" && c.FaultAt > 0 && faultLevel != 2 {
 			fault = c.FaultAt
 		}
 		res.CoqTerm = fmt.Sprintf("CaseRunsF %s %s\n  [%s]\n  [%s]\n  %s %s 0 0\n  %s\n  [%s]", nlist(c.Globals), coqNeeds(c.Handlers),
-			strings.Join(optT, "; "), strings.Join(optT2, "; "), lib.CoqNat(fault), lib.CoqBool(c.Paradigm != "invoke"), coqRStages(c.Stages), strings.Join(runTerms, ";\n   "))
+			strings.Join(optT, "; "), strings.Join(optT2, "; "), lib.CoqNat(fault), lib.CoqBool(c.Paradigm != "invoke"), coqRStages(c.Stages, faultSub, faultDelay), strings.Join(runTerms, ";\n   "))
 	} else {
 		first := "([], [])"
 		if len(runTerms) > 0 {
@@ -1949,6 +2112,9 @@ func runGraph(c *Case) lib.Result {
 	if anyPanics(c) {
 		res.Tags = append(res.Tags, "panicking-unit")
 	}
+	if !c.Eager && c.leavesTasksBehind() {
+		res.Tags = append(res.Tags, "first-tool-call-panics-siblings-running")
+	}
 	if nStops > 0 {
 		res.Tags = append(res.Tags, fmt.Sprintf("interrupt-points:%d", nStops))
 	}
@@ -1956,7 +2122,8 @@ func runGraph(c *Case) lib.Result {
 		if faultWhere == "" {
 			faultWhere = "not-reached"
 		}
-		res.Tags = append(res.Tags, "resume-fault:"+c.ResumeFault, "resume-fault-site:"+faultWhere)
+		res.Tags = append(res.Tags, "resume-fault:"+c.ResumeFault, "resume-fault-site:"+faultWhere,
+			"resume-fault-level:"+[]string{"none", "top", "nested"}[faultLevel])
 	}
 	return res
 }
@@ -2095,6 +2262,9 @@ func checkRun(c *Case, x *expectation, run oneRun, first bool, specs map[int]HSp
 	vals := newValSpec(c, run, x)
 	if !first {
 		sub := &valSpec{in: map[int]string{}, out: map[int]string{}}
+		// the graph unit itself is handed what the call was made with, in every run of the sequence (the run
+		// that resumes ignores its input, its start handlers are given it all the same)
+		sub.in[0] = vals.in[0]
 		for uid, k := range x.kind {
 			if k == "lambda" || k == "call" || k == "tools" {
 				if v, ok := vals.in[uid]; ok {
@@ -2195,6 +2365,9 @@ func checkRun(c *Case, x *expectation, run oneRun, first bool, specs map[int]HSp
 				default:
 					if e.Payload == "panic" && anyPanics(c) {
 						want = "panic"
+					}
+					if e.Payload == "error" && x.faultErr {
+						want = "error" // the error of the nested graph whose prologue failed
 					}
 				}
 			}
@@ -2315,7 +2488,9 @@ func coqStages(stages [][]*GNode) string {
 
 // coqRStages: the run plan (Model/CallbacksResume.v): lambdas carry the number of executions that
 // ask for an interrupt before the node behaves as the case says
-func coqRStages(stages [][]*GNode) string {
+// coqRStages: the run plan; the nested graph faultUID (0: none) gets a first stage [RFault delay]: its
+// prologue fails in the execution that follows `delay` interrupted executions of it
+func coqRStages(stages [][]*GNode, faultUID, delay int) string {
 	var sts []string
 	for _, st := range stages {
 		var ns []string
@@ -2328,7 +2503,11 @@ func coqRStages(stages [][]*GNode) string {
 			case "stop":
 				ns = append(ns, fmt.Sprintf("RStop %d%%nat", n.Intr))
 			case "sub":
-				ns = append(ns, fmt.Sprintf("RSub %d %d %d %s", n.UID, n.Key, n.UID, coqRStages(n.Stages)))
+				inner := coqRStages(n.Stages, faultUID, delay)
+				if n.UID == faultUID && faultUID != 0 {
+					inner = fmt.Sprintf("([RFault %d%%nat] :: %s)", delay, inner)
+				}
+				ns = append(ns, fmt.Sprintf("RSub %d %d %d %s", n.UID, n.Key, n.UID, inner))
 			case "tools":
 				var cs []string
 				for _, c := range n.Calls {
